@@ -256,10 +256,26 @@ func checkC08(sc *Scenario, h *History) []Violation {
 		if c.SrvCloseSeq < 0 {
 			continue
 		}
+		// Server.Close, called from another goroutine, may strike while a command is being
+		// handled: between the moment the command loop saw the connection open and the
+		// callback that command makes (reachable with the inserted yield points only). That
+		// command is in flight, not a further one: its callback is not judged here (whether it
+		// lands on a session already logged out is rule B's business); a second one is.
+		inFlight := 0
+		if sc.AutoYield != nil && closedByServerClose(h, c.S2C.ClosedAt) {
+			inFlight = 1
+		}
 		for _, e := range h.Events {
 			// (a Logout after the socket was closed is the one callback that is due:
 			// a session whose NewSession was still running when Server.Close struck)
 			if e.Conn == c.ID && e.Seq >= c.SrvCloseSeq && e.Kind != "Logout" {
+				if inFlight > 0 && e.Kind != "Reset" {
+					inFlight--
+					continue
+				}
+				if e.Kind == "Reset" && sc.AutoYield != nil && closedByServerClose(h, c.S2C.ClosedAt) {
+					continue // the transaction end of the command in flight
+				}
 				out = append(out, Violation{Rule: "C08.executed-after-close", Detail: fmt.Sprintf("%s(%s) began after the server had closed the connection", e.Kind, e.Arg), Witness: wit + " cb=" + e.Kind + dataAbortTag(e)})
 				break
 			}
@@ -345,7 +361,56 @@ func classifyC08(sc *Scenario, h *History, st *Stats) string {
 	return fmt.Sprintf("%d|%s|%v|%v|%v", x.Kind, x.Where, x.Suffix, sc.Srv.LMTP, sc.Conns[0].Steps[len(sc.Conns[0].Steps)-1].Glue)
 }
 
+// closedByServerClose: the instant lies inside a call of Server.Close made by the admin actor.
+func closedByServerClose(h *History, at int64) bool {
+	for _, a := range h.Admin {
+		if a.Kind == aClose && a.CallAt != 0 && at >= a.CallAt && (!a.Returned || at <= a.RetAt) {
+			return true
+		}
+	}
+	return false
+}
+
 func init() {
+	// F29: Server.Close logs the session out from its own goroutine while the connection's
+	// goroutine stands between fetching the session and entering the callback of the command
+	// it is handling.
+	triggers["c08-server-close-logs-out-under-a-command-in-flight"] = func(sc *Scenario, h *History, v Violation) bool {
+		if sc.AutoYield == nil {
+			return false
+		}
+		logouts := map[int]*BEvent{}
+		for _, e := range h.Events {
+			if e.Kind == "Logout" && logouts[e.Sess] == nil {
+				logouts[e.Sess] = e
+			}
+		}
+		for _, e := range h.Events {
+			if e.Kind == "NewSession" || e.Kind == "Logout" {
+				continue
+			}
+			lo := logouts[e.Sess]
+			if lo == nil || e.Seq <= lo.Seq {
+				continue
+			}
+			// the first callback after its session's Logout: the Logout was made inside a call of
+			// Server.Close, the callback is one a command handler makes, and the connection's
+			// goroutine was parked at an inserted yield point when the Logout began
+			if e.Kind != "Mail" && e.Kind != "Rcpt" && e.Kind != "Data" && e.Kind != "LMTPData" && e.Kind != "Auth" && e.Kind != "AuthMechanisms" {
+				return false
+			}
+			if !closedByServerClose(h, lo.Begin) {
+				return false
+			}
+			for _, p := range h.AutoParks {
+				if p.At <= lo.Begin && lo.Begin <= p.Until {
+					return true
+				}
+			}
+			return false
+		}
+		return false
+	}
 	triggers["c08-data-aborted-before-start"] = func(sc *Scenario, h *History, v Violation) bool {
 		return strings.HasSuffix(v.Witness, "/aborted-before-start")
 	}
@@ -386,6 +451,7 @@ func init() {
 		Stub:        []string{"net.Listener (SimListener)", "net.Conn (SimConn) with cut/RST/half-close/stall", "Backend/Session (SimBackend, panics and parks from the plan)", "clock (synctest)", "SMTP client (raw driver)"},
 		Assumptions: []string{"a write without a deadline issued while Conn.locker is held is reported as a connection that Server.Close can no longer end", "commands fully received before a peer disconnect may legitimately run; a final line cut before its CRLF is not judged", "callback order is the order in which callbacks began (global sequence number taken on entry)"},
 		Required:    []string{"commands_buffered_behind_the_ending", "server_close_lands_inside_NewSession", "logout_parked_during_starttls", "server_closed_connection_QUIT", "server_closed_connection_error-flood", "server_closed_connection_over-long-line", "server_closed_connection_idle-timeout", "server_closed_connection_backend-panic", "server_closed_connection_Server.Close", "server_closed_connection_STARTTLS-vs-Close", "reply_write_failed", "cut_fin", "cut_rst", "logout_returns_an_error", "read_timeout_in_the_middle_of_a_command_line", "reply_write_blocked_peer_not_reading", "blocked_write_ended_by_WriteTimeout"},
+		Instr:       true,
 		QuickRuns:   700, ThoroughRuns: 40000,
 	})
 }
